@@ -84,6 +84,11 @@ TEXTS = {
         "level_text": "Exploration: 40k (quick) / 670k (thorough) cases: correlate_rows/cols and convolve_rows/cols with dynamic kernels of 1..9 taps and fixed kernels of 1/3/5/7 taps, EVERY centre position, all five boundary options plus the defaulted argument, widths and heights 0..12 (narrower than the kernel and empty included), seven pixel-type combinations (gray8/rgb8/rgb8 planar/gray16/gray8s with int32 accumulators, gray32f/rgb32f), source exact / with margin / with exactly the promised padding; reverse_kernel size, centre and values; detail::convolve_2d for kernels 1..6 with every centre against the zero-extended 2-D sum; extend_row/extend_col/extend_boundary x {padded, zero, constant} x 0..4 pixels.",
         "level_note": "The sums are recomputed independently per output channel; column variants are checked against the same sums on the other axis rather than against the row variant, so a fault common to both would still show.",
     },
+    "C16": {
+        "technique": "rapidcheck-generated (pixel type, shape, content kind, parameters) cases; per-pixel definitional oracles recomputed in the harness (documented comparison, max/min over the in-image neighbourhood, sorted replicated window), validity predicate for Otsu (two-valued output separable by one threshold per channel), lattice laws on the library's output; guard-page source and destination under ASan/UBSan",
+        "level_text": "Exploration: 45k (quick) / 675k (thorough) cases over gray8, gray16, gray8s, gray16s, rgb8, rgb16s (+gray32f for morphology and median), shapes 0..9 incl. empty and non-square, six content kinds (random, constant, two-level, narrow range with ties, extremes, gradient). threshold_binary (both overloads) and threshold_truncate x 2 modes x 2 directions x defaulted arguments with T at the range ends, next to them, equal to an image value, random; threshold_optimal on all 8/16-bit types; dilate/erode with iterations 0..3, opening, closing with random symmetric structuring elements 1/3/5 (int and float kernels), erode<=src<=dilate, monotonicity, opening<=src<=closing, idempotence; median_filter k in {1,3,5,7}.",
+        "level_note": "The reference for morphology/median is a direct per-pixel loop over doubles; channel values of all tested types are exactly representable. Otsu's statistical optimality is not checked.",
+    },
     "C13": {
         "technique": "rapidcheck-generated valid files (GIL writers, hand-serialised BMP/TARGA/PNM variants, corpus files) and read recipes; differential of every read path against the full native read_image; guard-page destinations with identity tags",
         "level_text": "Exploration: 15k (quick) / 240k (thorough) (file, recipe) cases over 6 formats and 97 file variants (bottom-up/top-down, 1/4/8-bit palette, RLE4/RLE8, 16/24/32-bit BMP; ASCII and binary PNM; raw/RLE x both origins TARGA; PNG incl. PngSuite palette/tRNS/16-bit; strip/tile x none/LZW/packbits TIFF; JPEG). Per file: three device kinds, read_image_info, EVERY sub-rectangle for images up to 6x6 (11 sampled otherwise), read_view exact / too small in guard-page memory, read_and_convert_image/view to four pixel types vs color_convert of the native read, scanline rows, any_image.",
